@@ -229,7 +229,21 @@ func (c *modeSeq) Check(m *lib.Monitor, code string) {
 		pre, post := c.pre[i], c.post[i]
 		for name, k := range o.Relative {
 			vs := usedModes[name]
-			if len(vs) == 0 || !nodup(vs) {
+			if len(vs) == 0 {
+				// not a mode of this model (unknown, or only a near-miss of a configured name): the step
+				// writes nothing, the entry is whatever the rest of the request makes it
+				want, has := "", false
+				if v, ok := o.Values[name]; ok {
+					want, has = v, true
+				} else if v, ok := pre[name]; ok && o.Mask == "values" && len(post) > 0 {
+					want, has = v, true
+				}
+				if got, ok := post[name]; ok != has || got != want {
+					m.Violate("C20/mode/relative/unknown-mode-written", fmt.Sprintf("a relative step on %q, which is not one of the model's modes, must not select a value", name), c, fmt.Sprintf("%q present=%v", want, has), fmt.Sprintf("%q present=%v", got, ok))
+				}
+				continue
+			}
+			if !nodup(vs) {
 				continue
 			}
 			want := vs[0]
